@@ -36,6 +36,7 @@ type HSpec struct {
 	Stubs       []string          `json:"stubs"`
 	Assumptions []string          `json:"assumptions"`
 	NoReplay    bool              `json:"no_replay"`
+	IntMode     bool              `json:"int_mode"`
 	MaxWallS    map[string]int    `json:"max_wall_s"`
 	StubFiles   map[string]string `json:"stub_files"` // native replay only: rewrite (see replay.go)
 }
@@ -142,6 +143,7 @@ func runHarness(h HSpec, tier int, seed int64, trace bool, logDir string) *HResu
 		cfg.Solver = h.Solver
 	}
 	cfg.CrossSolvers = h.Cross
+	cfg.IntMode = h.IntMode
 	if h.TimeoutMs > 0 {
 		cfg.TimeoutMs = h.TimeoutMs
 	}
@@ -153,6 +155,9 @@ func runHarness(h HSpec, tier int, seed int64, trace bool, logDir string) *HResu
 	}
 	if h.MaxPaths > 0 {
 		cfg.MaxPaths = h.MaxPaths
+	}
+	if w := os.Getenv("GOSYM_MAXWALL"); w != "" {
+		fmt.Sscan(w, &cfg.MaxWallS)
 	}
 	if w := os.Getenv("VERIF_WORKERS"); w != "" {
 		fmt.Sscan(w, &cfg.Workers)
@@ -353,6 +358,10 @@ func cmdCheck(prop, tier, only string, trace bool, logDir string, noReplay, verb
 				if ok {
 					validated++
 				} else {
+					os.MkdirAll(filepath.Join(verifDir, "evidence/replays"), 0o755)
+					wp := filepath.Join(verifDir, "evidence/replays", fmt.Sprintf("%s-%s-witness-%d.json", prop, h.Name, i))
+					wb, _ := json.MarshalIndent(map[string]any{"property": prop, "harness": h.Name, "tier": tier, "kind": "witness", "covers": w.Covers, "values": w.Inputs}, "", " ")
+					os.WriteFile(wp, wb, 0o644)
 					fmt.Printf("INCONCLUSIVE property=%s harness=%s witness %d does not replay natively (engine/stub mismatch): covers sym=%v native=%v panic=%v fails=%v unreal=%v %s\n",
 						prop, h.Name, i, w.Covers, out.Covers, out.Panic, out.AssertFails, out.Unrealisable, out.Tail)
 					inconclusive = true
